@@ -4,7 +4,6 @@ state of the real objects back in the vocabulary of the specification (no source
 cache's own registry, the TaskManager's task of each cache for its timer, datagrams decoded from the simulated wire)."""
 from __future__ import annotations
 
-import asyncio
 import hashlib
 import json
 from base64 import decodebytes
@@ -94,6 +93,8 @@ class World:
         self.pk_id = {}          # serialized public key -> key id
         self.blob_id = {}        # sha1(blob) -> blob id
         self.blob = {}           # blob id -> bytes
+        self.hash_of = {}        # blob id -> sha1
+        self.adv_ch = {}         # challenge bytes the adversary made up -> challenge id
         self.chunk_code = {}     # chunk bytes -> Data(h, i) / Junk(i)
         self.ch_id = {}          # cache number of sha1(challenge) -> (kind, a, b)
         self.ch_bytes = {}       # (kind, a, b) -> challenge bytes
@@ -194,7 +195,6 @@ class World:
         b = len(self.blob_id) + 1
         self.blob_id[hsh] = b
         self.blob[b] = blob
-        self.hash_of = getattr(self, "hash_of", {})
         self.hash_of[b] = hsh
         for c, off in enumerate(range(0, len(blob), 800)):
             self.chunk_code[(b, blob[off:off + 800])] = b * 16 + c + 1
@@ -269,7 +269,7 @@ class World:
             num = int.from_bytes(hashlib.sha1(payload.challenge).digest(), "big")
             ch = self.ch_id.get(num)
             if ch is None:
-                ch = self.adv_ch.get(payload.challenge, (-1, -1, -1)) if hasattr(self, "adv_ch") else (-1, -1, -1)
+                ch = self.adv_ch.get(payload.challenge, (-1, -1, -1))
             return msg("chal", src, dst, gt, h=self.blob_id.get(payload.attestation_hash, -1), ch=ch)
         num = int.from_bytes(payload.challenge_hash, "big")
         ch = self.ch_id.get(num, (-1, -1, -1))
@@ -387,7 +387,7 @@ class World:
     def hash_key(self, cache):
         return self.blob_id.get(cache.number.to_bytes(20, "big"), -1)
 
-    def _map(self, amap, h_hint=None):
+    def _map(self, amap):
         out = set()
         for seq, data in amap:
             code = -1
@@ -498,7 +498,7 @@ class World:
         v = len(self.ver_objs) + 1
         self.results.append([])
         self.user_results.append([])
-        vals = [self.value_bytes(x) for x in (self.values or [])]
+        vals = getattr(self, "raw_values", None) or [self.value_bytes(x) for x in (self.values or [])]
 
         def cb(attestation_hash, certainties, v=v):
             self.user_results[v - 1].append(list(certainties))
@@ -584,7 +584,6 @@ class World:
                 cbytes = self.ch_bytes[ch]
             else:
                 cbytes = b"H" + b"advadvad" + bytes([ch[2]])
-                self.adv_ch = getattr(self, "adv_ch", {})
                 self.adv_ch[cbytes] = ch
                 self.ch_id[int.from_bytes(hashlib.sha1(cbytes).digest(), "big")] = ch
             payload, mid = ChallengePayload(self.hash_of[m["h"]], cbytes), 3
